@@ -847,6 +847,8 @@ def check(ctx: Ctx) -> None:
     check_siblings(ctx)
     check_detect(ctx)
     check_diff(ctx)
+    from . import _extra
+    _extra.check_fetch_none_tests(ctx, 'R4.7')
 
 
 SPEC = PropSpec(
